@@ -116,7 +116,7 @@ def build(drv, tags='verif', race=False):
             # mutation runs (VERIF_REPO=<worktree>): build from a private copy of the harness so that
             # the generated go.mod of the registered checks is never touched
             harness = os.path.join(tempfile.gettempdir(), 'verif-harness' + suffix)
-            sh(['rsync', '-a', '--delete', '--exclude', 'go.mod', '--exclude', 'go.sum', HARNESS + '/', harness + '/'], check=True)
+            sh(['rsync', '-a', '--delete', '--exclude', 'go.mod', '--exclude', 'go.sum', '--exclude', '.bin', HARNESS + '/', harness + '/'], check=True)
         sys.path.insert(0, os.path.join(VERIF, 'lib'))
         import gomod
         gomod.gen(REPO, harness)
